@@ -79,7 +79,7 @@ Section Step.
          mkKn6 ((u, mkBnd j (set_pop_x5t cfg b)) :: k6_par k) (k6_code k) (k6_tok k) (k6_ciba k))
     | OpAuthorize r, Out (ONav _ _ nv) =>
         match ar_pol r with
-        | PolSuccess _ _ _ =>
+        | PolSuccess _ _ _ _ =>
             let p := ar_params r in
             let ann := if is_nil (p_request_uri p) then Some (mkBnd (p_dpop_jkt p) 0)
                        else match lookup (p_request_uri p) (k6_par k) with
